@@ -18,10 +18,21 @@ time_t time(time_t *t)
  * format string starts with literal text (checked syntactically on every run by vf/props.py), so
  * the real snprintf always produces at least that first character: the model writes exactly it.
  * A format that starts with a conversion gets an arbitrary (possibly empty) result. */
+/* The format of a printf-family call must not be text derived from untrusted input: the JSON
+ * model registers the parser's error text (arbitrary bytes, '%' included) as such.  A format that
+ * lives in that object and can hold a '%' is undefined behaviour waiting for the right input. */
+const void *vf_untrusted_text;
+#define VF_FMT_CHECK(fmt_)                                                                      \
+	__CPROVER_assert(!(vf_untrusted_text && __CPROVER_same_object((fmt_), vf_untrusted_text)) || \
+			 ((fmt_)[0] != '%' && ((fmt_)[0] == '\0' || (fmt_)[1] != '%')),           \
+			 "printf-family format string is untrusted input text that can contain a conversion (undefined behaviour)")
+
 int snprintf(char *s, size_t n, const char *fmt, ...)
 {
 	unsigned i;
 	char lit = '\0';
+
+	VF_FMT_CHECK(fmt);
 
 	if (n == 0)
 		return nondet_int();
@@ -67,6 +78,7 @@ int sprintf(char *s, const char *fmt, ...)
 	va_list ap;
 	size_t o = 0, i;
 
+	VF_FMT_CHECK(fmt);
 	va_start(ap, fmt);
 	for (i = 0; fmt[i]; i++) {
 		if (fmt[i] == '%' && fmt[i + 1] == 's') {
@@ -85,8 +97,8 @@ int sprintf(char *s, const char *fmt, ...)
 	return (int)o;
 }
 
-int fprintf(FILE *f, const char *fmt, ...) { return nondet_int(); }
-int printf(const char *fmt, ...) { return nondet_int(); }
+int fprintf(FILE *f, const char *fmt, ...) { VF_FMT_CHECK(fmt); return nondet_int(); }
+int printf(const char *fmt, ...) { VF_FMT_CHECK(fmt); return nondet_int(); }
 int puts(const char *s) { return nondet_int(); }
 int fputs(const char *s, FILE *f) { return nondet_int(); }
 void perror(const char *s) { }
